@@ -4,12 +4,13 @@
 cd /verif
 OUT=seeded/final_validation.log; : > $OUT
 [ -z "$(git -C /repo status --porcelain)" ] || { echo "/repo is not clean"; exit 2; }
+trap 'git -C /repo checkout -- . ; echo "interrupted: /repo restored" >> /verif/seeded/final_validation.log' INT TERM HUP
 for d in seeded/C*/; do
   n=$(basename $d); id=$(echo $n | cut -c1-3)
   [ -f $d/patch.diff ] || continue
   if git -C /repo apply --check $d/patch.diff 2>/dev/null; then
     git -C /repo apply $d/patch.diff
-    r=$(timeout 1500 ./check $id 2>&1 | grep -E "^VIOLATION" | grep -v "KNOWN" | head -2 | sed 's/replay=.*replays\///' | tr '\n' ' ')
+    r=$(timeout 1500 ./check $id 2>/dev/null | grep -E "^VIOLATION" | head -2 | sed 's/replay=.*replays\///' | tr '\n' ' ')
     git -C /repo checkout -- .
     echo "$n: ${r:-NOT DETECTED}" | tee -a $OUT
   else
